@@ -23,6 +23,9 @@ def read_batch(root, script):
     cfgp = m2.group(1)
     cp = cfgp if os.path.isabs(cfgp) else os.path.join(root, cfgp)
     cfg = json.load(open(cp))
+    for j in cfg["jobs"]:
+        if j.get("name") is None and j.get("job_id") is not None:
+            j["name"] = str(j["job_id"])  # unnamed job: JADE's name for it is str(job_id)
     return [j["name"] for j in cfg["jobs"]], cfg, txt, run, cfgp
 
 
